@@ -103,6 +103,51 @@ var texts = []textCase{
 	{"other-sep-data", func(c byte) string { return "a;b,c\nd;e,f\n" }},
 }
 
+func longRows(n, width int, c byte, tag string) string {
+	var b strings.Builder
+	for i := 0; i < n; i++ {
+		b.WriteString(strings.Repeat(tag, width))
+		b.WriteByte(c)
+		b.WriteString(strings.Repeat("z", width))
+		b.WriteByte('\n')
+	}
+	return b.String()
+}
+
+// inputs spanning several read buffers (bufio: 4096 bytes)
+var longTexts = []textCase{
+	{"valid-24k", func(c byte) string { return longRows(8, 1500, c, "v") }},
+	{"malformed-early-long-tail", func(c byte) string { return "a\"b" + string(c) + "c\n" + longRows(12, 700, c, "t") }},
+	{"malformed-middle-long-tail", func(c byte) string {
+		return longRows(4, 700, c, "h") + "x" + string(c) + "a\"b\n" + longRows(12, 700, c, "t")
+	}},
+	{"unterminated-quote-long-tail", func(c byte) string { return "k" + string(c) + "\"open\n" + longRows(12, 700, c, "t") }},
+}
+
+func textByName(name string) textCase {
+	for _, t := range texts {
+		if t.name == name {
+			return t
+		}
+	}
+	panic("c16: no text class " + name)
+}
+
+// mkReuse: one codec value, several calls with different inputs.
+func mkReuse(dir, kind string, names []string, o opts, skip, chunk int, origin string) (M, bool) {
+	var calls []M
+	for _, nm := range names {
+		text := textByName(nm).text(o.effComma())
+		table, bad := refParse(text, o)
+		if dir == "produce" && (kind == "records" || kind == "precords") && bad {
+			return nil, false
+		}
+		calls = append(calls, M{"text": trace.B(text), "table": tableJSON(table), "bad": bad})
+	}
+	return M{"dir": dir, "kind": kind, "text": []int{}, "opts": o.JSON(), "skip": skip, "pre": 0, "chunk": chunk,
+		"table": [][][]int{}, "bad": false, "calls": calls, "origin": origin}, true
+}
+
 // ---- options -------------------------------------------------------------------
 
 type opts struct {
@@ -276,13 +321,83 @@ func generate(c *drv.Ctx) {
 		}
 	}
 	c.Extra["enumerated_cases"] = n
+	// long inputs (several 4096-byte read buffers): valid, malformed early with a long tail, malformed in the
+	// middle - every kind must report the parser's error, whatever is still in flight
+	nLong := 0
+	for _, lt := range longTexts {
+		for _, comma := range []byte{0, ';'} {
+			base := opts{Comma: comma, FPR: -1}
+			text := lt.text(base.effComma())
+			for _, skip := range []int{0, 1} {
+				for _, dir := range []string{"consume", "produce"} {
+					kinds := dstKinds
+					if dir == "produce" {
+						kinds = srcKinds
+					}
+					for ki, kind := range kinds {
+						for _, chunk := range []int{0, 4096, 100} {
+							if !thorough && chunk != []int{0, 4096, 100}[(ki+nLong)%3] && kind != "writerto" {
+								continue
+							}
+							o := base
+							o.Reuse, o.CRLF = (nLong+ki)%2 == 0, nLong%3 == 0
+							if d, ok := mkCase(dir, kind, text, o, skip, 0, chunk, "long:"+lt.name); ok {
+								d["tail"] = true
+								c.Case(d)
+								nLong++
+							}
+						}
+					}
+				}
+			}
+		}
+	}
+	c.Extra["long_cases"] = nLong
+	// ONE codec value used for 2 or 3 calls (skip > 0, also beyond the record count of an input)
+	nReuse := 0
+	reuseTexts := []string{"plain2x2", "plain3x2-noeol", "five-rows", "one", "empty", "bare-quote"}
+	for _, comma := range []byte{0, ';'} {
+		base := opts{Comma: comma, FPR: -1}
+		for _, dir := range []string{"consume", "produce"} {
+			kinds := dstKinds[:8]
+			if dir == "produce" {
+				kinds = srcKinds[:12]
+			}
+			for _, kind := range kinds {
+				for _, skip := range []int{1, 2, 3, 6} {
+					for ai, a := range reuseTexts {
+						for bi, b := range reuseTexts {
+							if !thorough && (ai+bi+nReuse)%3 != 0 {
+								continue
+							}
+							names := []string{a, b}
+							if (ai+bi)%2 == 0 {
+								names = append(names, a)
+							}
+							o := base
+							o.Reuse = nReuse%2 == 0
+							if d, ok := mkReuse(dir, kind, names, o, skip, []int{0, 7}[nReuse%2], "reuse"); ok {
+								c.Case(d)
+								nReuse++
+							}
+						}
+					}
+				}
+			}
+		}
+	}
+	c.Extra["reuse_cases"] = nReuse
 	// seeded random larger cases
 	nRand := 3000
 	if thorough {
 		nRand = 30000
 	}
 	for i := 0; i < nRand; i++ {
-		c.Case(randomCase(c.Rng))
+		if i%10 == 9 {
+			c.Case(randomReuse(c.Rng))
+		} else {
+			c.Case(randomCase(c.Rng))
+		}
 	}
 	c.Extra["random_cases"] = nRand
 }
@@ -361,6 +476,37 @@ func randomCase(rng *rand.Rand) M {
 		if d, ok := mkCase(dir, kind, text, o, skip, pre, []int{0, 1, 7, 4096}[rng.Intn(4)], "rand"); ok {
 			return d
 		}
+	}
+}
+
+// randomReuse: 2..4 calls with one codec value over random small tables.
+func randomReuse(rng *rand.Rand) M {
+	for {
+		o := opts{Comma: []byte{0, ';'}[rng.Intn(2)], FPR: -1, Reuse: rng.Intn(2) == 0, CRLF: rng.Intn(2) == 0}
+		dir := []string{"consume", "produce"}[rng.Intn(2)]
+		kind := dstKinds[rng.Intn(8)]
+		if dir == "produce" {
+			kind = srcKinds[rng.Intn(12)]
+		}
+		var calls []M
+		ok := true
+		for i, n := 0, 2+rng.Intn(3); i < n; i++ {
+			var table [][]string
+			for r, nr := 0, rng.Intn(6); r < nr; r++ {
+				table = append(table, []string{randomField(rng), randomField(rng)})
+			}
+			text := render(table, o.effComma(), "\n", rng.Intn(3) == 0, true)
+			ref, bad := refParse(text, o)
+			if bad && (kind == "records" || kind == "precords") && dir == "produce" {
+				ok = false
+			}
+			calls = append(calls, M{"text": trace.B(text), "table": tableJSON(ref), "bad": bad})
+		}
+		if !ok {
+			continue
+		}
+		return M{"dir": dir, "kind": kind, "text": []int{}, "opts": o.JSON(), "skip": rng.Intn(8), "pre": 0,
+			"chunk": []int{0, 1, 7}[rng.Intn(3)], "table": [][][]int{}, "bad": false, "calls": calls, "origin": "rand-reuse"}
 	}
 }
 
@@ -502,50 +648,99 @@ func reparse(b []byte, o opts) ([][]string, bool) {
 	return recs, true
 }
 
-// aliased reports whether changing one delivered record changes another one.
-func aliased(recs [][]string) bool {
-	for i := range recs {
-		if len(recs[i]) == 0 {
-			continue
-		}
-		before := make([]string, len(recs))
+// aliased reports whether changing one delivered record changes another one:
+// overwriting a field of it (write), or appending to it (app: the rows share
+// one backing array and row i has spare capacity reaching into row i+1).
+func aliased(recs [][]string) (write, app bool) {
+	snapshot := func() [][]string {
+		cp := make([][]string, len(recs))
 		for j := range recs {
-			if len(recs[j]) > 0 {
-				before[j] = recs[j][0]
+			cp[j] = append([]string{}, recs[j]...)
+		}
+		return cp
+	}
+	differs := func(before [][]string, except int) bool {
+		for j := range recs {
+			if j == except {
+				continue
+			}
+			for k := range recs[j] {
+				if recs[j][k] != before[j][k] {
+					return true
+				}
 			}
 		}
-		old := recs[i][0]
-		recs[i][0] = old + "\x00changed"
-		hit := false
+		return false
+	}
+	restore := func(before [][]string) {
 		for j := range recs {
-			if j != i && len(recs[j]) > 0 && recs[j][0] != before[j] {
-				hit = true
-			}
-		}
-		recs[i][0] = old
-		if hit {
-			return true
+			copy(recs[j], before[j])
 		}
 	}
-	return false
+	for i := range recs {
+		before := snapshot()
+		if len(recs[i]) > 0 {
+			recs[i][0] = before[i][0] + "\x00changed"
+			if differs(before, i) {
+				write = true
+			}
+			restore(before)
+		}
+		grown := append(recs[i], "\x00appended") // what any caller may do with a row it was given
+		_ = grown
+		if differs(before, i) {
+			app = true
+		}
+		restore(before)
+	}
+	return write, app
+}
+
+// call is the input of one Consume / Produce call.
+type call struct {
+	text string
+	ref  [][]string
+	bad  bool
 }
 
 func execute(c *drv.Ctx, d M) bool {
 	o := optsFromJSON(d["opts"])
-	text := trace.Str(d["text"])
-	kind := drv.Str(d["kind"])
+	kind, dir := drv.Str(d["kind"]), drv.Str(d["dir"])
 	skip, pre, chunk := drv.Int(d["skip"]), drv.Int(d["pre"]), drv.Int(d["chunk"])
-	ref := tableFromJSON(d["table"])
-	bad := drv.Bool(d["bad"])
+	// ONE codec value for all the calls of the case
+	var consumer runtime.Consumer
+	var producer runtime.Producer
+	if dir == "consume" {
+		consumer = runtime.CSVConsumer(codecOpts(o, skip)...)
+	} else {
+		producer = runtime.CSVProducer(codecOpts(o, skip)...)
+	}
+	nontrivial := false
+	if cs, ok := d["calls"]; ok {
+		for i, cv := range drv.List(cs) {
+			m := drv.Map(cv)
+			cl := call{text: trace.Str(m["text"]), ref: tableFromJSON(m["table"]), bad: drv.Bool(m["bad"])}
+			runCall(c, consumer, producer, kind, cl, o, 0, chunk, i+1)
+			nontrivial = nontrivial || len(cl.ref) > 0 || cl.bad
+		}
+		return nontrivial
+	}
+	cl := call{text: trace.Str(d["text"]), ref: tableFromJSON(d["table"]), bad: drv.Bool(d["bad"])}
+	runCall(c, consumer, producer, kind, cl, o, pre, chunk, 0)
+	return len(cl.ref) > 0 || cl.bad
+}
 
+// runCall performs one call on the real codec and logs what it observably did.
+func runCall(c *drv.Ctx, consumer runtime.Consumer, producer runtime.Producer, kind string, cl call, o opts, pre, chunk, idx int) {
+	text, ref, bad := cl.text, cl.ref, cl.bad
 	var err error
 	var delivered [][]string
-	rp, alias := true, false
+	rp, aliasW, aliasA := true, false, false
 	closes, scloses := 0, 0
 	var run func()
 	var after func()
 
-	if drv.Str(d["dir"]) == "consume" {
+	if consumer != nil {
 		rc := streamkit.NewReadCloser(script(text, chunk))
 		var dst any
 		bytesOut := func(get func() []byte) func() {
@@ -572,7 +767,10 @@ func execute(c *drv.Ctx, d M) bool {
 			for i := 0; i < pre; i++ {
 				recs = append(recs, []string{"pre", strings.Repeat("x", i)})
 			}
-			dst, after = &recs, func() { delivered, alias = recs, aliased(recs) }
+			dst, after = &recs, func() {
+				aliasW, aliasA = aliased(recs)
+				delivered = recs
+			}
 		case "pbytes":
 			b := []byte("old\n")
 			dst, after = &b, bytesOut(func() []byte { return b })
@@ -592,7 +790,6 @@ func execute(c *drv.Ctx, d M) bool {
 		default:
 			panic("c16: unknown destination kind " + kind)
 		}
-		consumer := runtime.CSVConsumer(codecOpts(o, skip)...)
 		run = func() { err = consumer.Consume(rc, dst) }
 		prev := after
 		after = func() {
@@ -612,8 +809,7 @@ func execute(c *drv.Ctx, d M) bool {
 		case "reader":
 			src = streamkit.NewReader(script(text, chunk))
 		case "readcloser":
-			s := streamkit.NewReadCloser(script(text, chunk))
-			src = s
+			src = streamkit.NewReadCloser(script(text, chunk))
 		case "writerto":
 			src = &srcWT{text: []byte(text), chunk: chunk}
 		case "binm":
@@ -643,7 +839,6 @@ func execute(c *drv.Ctx, d M) bool {
 		default:
 			panic("c16: unknown source kind " + kind)
 		}
-		producer := runtime.CSVProducer(codecOpts(o, skip)...)
 		run = func() { err = producer.Produce(w, src) }
 		after = func() {
 			delivered, rp = reparse(w.Got, o)
@@ -669,7 +864,6 @@ func execute(c *drv.Ctx, d M) bool {
 	if panicked {
 		ec = "none"
 	}
-	c.W.Event("csv", M{"err": ec, "delivered": tableJSON(delivered), "alias": alias, "rp": rp,
-		"closes": closes, "scloses": scloses, "panic": panicked})
-	return len(ref) > 0 || bad
+	c.W.Event("csv", M{"i": idx, "err": ec, "delivered": tableJSON(delivered), "alias": aliasW || aliasA,
+		"alias_write": aliasW, "alias_append": aliasA, "rp": rp, "closes": closes, "scloses": scloses, "panic": panicked})
 }
